@@ -387,6 +387,27 @@ mod gaps {
             if a3 != "mut literal" || a4 != b"mut c" { notes.push(format!("{head}: contents differ from std::vec::Vec: the *_mut formatting helpers gave {a3:?} / {a4:?}")); }
             if unsafe { core::slice::from_raw_parts(ap as *const u8, al) } != "plain literal \u{e9}\u{4e16}".as_bytes() { notes.push(format!("{head}: an older allocation changed")); }
         }
+        // C strings from text with several NULs: the text up to the FIRST one, and the position advances by exactly that
+        // much plus the terminator (MIN_ALIGN 1), in both directions, for the finalised MutBumpString and the helper
+        {
+            let texts = ["ab\0cd\0ef", "\0\0", "xyz", "q\0", "long prefix \u{4e16}\0\0tail\0"];
+            let t = texts[(c.d as usize) % texts.len()];
+            let want: Vec<u8> = t.bytes().take_while(|b| *b != 0).collect();
+            macro_rules! dir {
+                ($up:literal) => {{
+                    let mut b: Bump<Global, BumpSettings<1, $up>> = Bump::with_size(512);
+                    b.alloc(3u8);
+                    let a0 = b.stats().allocated();
+                    let got: Vec<u8> = if c.b % 2 == 0 {
+                        let mut s = bump_scope::MutBumpString::new_in(&mut b); s.push_str(t); s.into_cstr().to_bytes().to_vec()
+                    } else { b.alloc_cstr_fmt_mut(format_args!("{}", t)).to_bytes().to_vec() };
+                    let adv = b.stats().allocated() - a0;
+                    if got != want { notes.push(format!("{head}: contents differ from std::vec::Vec: C string of {t:?} is {got:?} (UP={})", $up)); }
+                    if adv != want.len() + 1 { notes.push(format!("{head}: helpers: position moved by {adv} bytes for a C string of {} bytes plus its terminator (text {t:?}, UP={})", want.len(), $up)); }
+                }};
+            }
+            dir!(true); dir!(false);
+        }
         notes
     }
 
